@@ -493,6 +493,18 @@ def constraints(expr, polarity, nz, env=None):
             return [('or', 'not ' + nz.canon(expr, env))]
         out = []
         for l, o, r in pairs:
+            # x in range(a, b) [step 1]  ==  a <= x <= b - 1 (for the integer x these rules speak about)
+            if isinstance(o, (ast.In, ast.NotIn)) and isinstance(r, ast.Call) and isinstance(r.func, ast.Name) and r.func.id == 'range' \
+                    and 1 <= len(r.args) <= 2 and not r.keywords:
+                member = isinstance(o, ast.In) == polarity
+                lo_ = r.args[0] if len(r.args) == 2 else ast.Constant(value=0)
+                hi_ = r.args[-1]
+                if member:
+                    out.append(_cmp_constraint(lo_, ast.LtE(), l, True, nz, env))
+                    out.append(_cmp_constraint(l, ast.Lt(), hi_, True, nz, env))
+                else:
+                    out.append(('or', 'not ' + nz.canon(ast.Compare(left=l, ops=[ast.In()], comparators=[r]), env)))
+                continue
             out.append(_cmp_constraint(l, o, r, polarity, nz, env))
         return out
     if isinstance(expr, ast.Constant):
